@@ -117,8 +117,10 @@ func specialFamilies() []*scaleFam {
 			{Prog: "function h() { return v }\nfunction viaPlain() { return h() }\nfunction viaParam(v) { return h() }\nBEGIN { v = 1; print viaParam(2); print viaPlain(); print viaParam(3) }\n"},
 			{Prog: "function show() { return v }\nBEGIN { v = \"outer\" }\n{ print match ($) { 0 => show(), v => show() } }\n", Input: `[0, 5, 0, 6]`},
 			{Prog: "function show() { return v }\nBEGIN { v = \"outer\" }\n{ print match ($) { 0 => show(), v => show() } }\n", Input: `[5, 0]`},
-			{Prog: "function note(last) { if (last == 2) { next } return last }\nfunction probe() { return last is unknown }\n{ note($) }\n{ print $, probe() }\n", Input: `[1, 2, 3, 2, 4]`},
-			{Prog: "function note(last) { match (last) { 2 => { next }, other => { return other } } }\nfunction setit() { last = 7; return last }\nfunction probe() { return last is unknown }\n{ note($) }\n{ print $, setit(), probe() }\nEND { print last is unknown }\n", Input: `[1, 2, 3]`},
+			{Prog: "function note(last) { if (last == 2) { next } return last }\nfunction probe() { return last is unknown }\n{ print $, probe(); note($) }\n{ print \"second rule\", probe() }\n", Input: `[1, 2, 3, 2, 4]`},
+			{Prog: "function note(last, other) { other = 5; if (last == 2) { next } return last }\nfunction setit() { last = last + 1; other = other + 1; return last }\n{ print $, setit(), last is unknown, other is unknown; note($) }\nEND { print last is unknown }\n", Input: `[1, 2, 3, 2, 4]`},
+			{Prog: "function note(v) { for (last in [v, 2]) { if (last == 2) { next } } return v }\nfunction probe() { return last is unknown }\n{ print $, match (1) { x => probe() }\nnote($) }\n", Input: `[1, 2, 3]`},
+			{Prog: "function note(last) { match (last) { 2 => { next }, other => { return other } } }\nfunction setit() { last = 7; return last }\nfunction probe() { return last is unknown }\n{ print $, probe(), setit(), probe(); note($) }\nEND { print last is unknown }\n", Input: `[1, 2, 3, 2, 1]`},
 		}),
 		textFam("C19", "cases whose alternatives bind different names, subjects in every order", func() []textProg {
 			var out []textProg
